@@ -91,6 +91,10 @@ class C04(common.Spec):
 
             def call_later(delay, cb, *args, **kw2):
                 if cb is wrapped_event or getattr(cb, '__self__', None) is fsm:
+                    live = sum(1 for h in state['pending'].values() if not h.cancelled())
+                    if live >= 20:
+                        # timers multiply: stop feeding the loop, the count alone is the verdict
+                        raise vloop.HarnessTimeout('timers multiply')
                     hid = state['counter']
                     state['counter'] += 1
 
@@ -166,7 +170,10 @@ class C04(common.Spec):
                     pass
 
         try:
-            vloop.run_virtual(main)
+            vloop.run_virtual(main, wall_limit_s=6.0)
+        except vloop.HarnessTimeout:
+            obs.setdefault('pending', 50)
+            obs['timeout'] = True
         except Exception as err:
             obs['harness_error'] = repr(err)
         finally:
@@ -218,7 +225,8 @@ class C04(common.Spec):
              "to_failed := %s |}") % (
             clist(obs['entries'], lambda e: cpair(cz(e[0]), cstr(e[1]))),
             copt(obs.get('final_state'), cstr), copt(obs.get('expiry'), cz),
-            cnat(min(obs.get('pending', 0), 50)), cbool(obs.get('failed', False)))
+            cnat(50 if obs.get('timeout') else min(obs.get('pending', 0), 50)),
+            cbool(obs.get('failed', False)))
         return "{| tc_def := %s;\n tc_steps := %s;\n tc_obs := %s |}" % (tdef, clist(steps), o)
 
     def nontrivial(self, case, obs):
